@@ -528,12 +528,13 @@ class _Engine(object):
         self.thorough = thorough
         budget = THOROUGH_BUDGET if thorough else QUICK_BUDGET
         self.t_end = min(getattr(ctx, 'deadline', self.t0 + budget), self.t0 + budget)
-        self.t_gen = self.t0 + 0.35 * budget
+        self.t_gen = self.t0 + 0.35 * max(0.0, self.t_end - self.t0)
         self.cases = []          # (kind, inp, stream, requests, real)
         self.dis = {}            # signature -> disagreement (smallest seen)
         self.hist = {'kind': {}, 'stream': {}, 'size': {}, 'outcome': {}}
         self.requests = self.nontrivial = self.ties = 0
         self.samples = []
+        self.tie_samples = []
 
     def more(self):
         return time.time() < self.t_gen
@@ -593,6 +594,8 @@ class _Engine(object):
             if v == 'tie':
                 self.ties += 1
                 self.count('outcome', 'float tie')
+                if len(self.tie_samples) < 3:
+                    self.tie_samples.append({'kind': kind, 'stream': stream, 'input': inp})
                 continue
             try:
                 nt = k.nontrivial(inp, real)
@@ -617,6 +620,7 @@ class _Engine(object):
             'requests': self.requests, 'nontrivial': self.nontrivial, 'rule': RULES[self.prop],
             'disagreements': [self.dis[s] for s in sorted(self.dis)],
             'float_ties': self.ties, 'histograms': self.hist, 'samples': self.samples,
+            'float_tie_samples': self.tie_samples,
             'seconds': round(time.time() - self.t0, 1)}
 
     def one(self, kind, inp):
@@ -847,7 +851,7 @@ def gen_c15(E, seed):
     T = random.Random('%s/corr.cleanup/C15/threshold' % seed)
     tols = [1e-3, 1e-2, 0.0078125]
     scale = 14 if E.thorough else 1
-    n_loops, n_thr, n_shal = 24 * scale, 110 * scale, 70 * scale
+    n_loops, n_thr, n_shal = 24 * scale, 150 * scale, 120 * scale
     rounds = max(n_loops, n_thr, n_shal)
     for k in range(rounds):
         if not E.more():
@@ -980,6 +984,9 @@ def fixed_c18(E):
             [(a, b), (a, c), (a, d)], [(b, a), (c, a), (d, a)], [(a, b), (c, b), (d, b), (e, b)],
             [(a, b), (c, d), (e, a)], [(a, b), (c, d), (b, c)], [(c, d), (a, b), (b, c), (e, d)],
             [(a, b), (b, c), (b, d), (d, e), (c, e)],
+            # closed ring, then a tail that matches both ends: the order of the four attempts
+            [(a, b), (b, c), (c, a), (e, a)], [(a, b), (b, c), (c, a), (a, e)],
+            [(a, b), (b, a), (e, a)], [(a, b), (b, a), (a, e)], [(a, b), (c, a), (b, c), (e, a)],
         ]
         for segs in corpus:
             E.add(kd, {'segs': [[list(s[0]), list(s[1])] for s in segs], 'tol': tol}, 'fixed')
@@ -1064,6 +1071,7 @@ if __name__ == '__main__':
             bad += 1
             print('   DISAGREE', d['what'][:400])
             print('            input', _brief(d['input']))
-            again = replay(ctx, d)
+            import json
+            again = replay(ctx, json.loads(json.dumps(d, default=lbg._json_default)))
             print('            replay:', 'reproduced' if again else 'NOT reproduced')
     sys.exit(1 if bad else 0)
